@@ -7,7 +7,7 @@ is a finding, not a pass.
 import ast
 
 from ..core.db import walk_no_nested
-from ..core.interp import Domain, Value, Const, Tup, Unknown, Slice, _Break, _Continue
+from ..core.interp import Domain, Value, Const, Tup, Unknown, Slice, DictV, ExtRef, _Break, _Continue
 
 
 class Dim(Value):
@@ -57,11 +57,36 @@ class Scalar(Value):
 class NsV(Value):
     """list of K requested orders (python list or ndarray of shape (K,))."""
 
-    def __init__(self, as_array=False):
+    def __init__(self, as_array=False, dim='K'):
         self.as_array = as_array
+        self.dim = dim
 
     def __repr__(self):
-        return 'NsV'
+        return 'NsV[%s]' % self.dim
+
+
+class PairsV(Value):
+    """list of K requested (n, m) pairs."""
+
+    def __repr__(self):
+        return 'PairsV'
+
+
+class DefDict(DictV):
+    """collections.defaultdict: a missing key yields the factory's value."""
+
+    def __init__(self, default):
+        DictV.__init__(self)
+        self.default = default
+
+    def get(self, k):
+        v = DictV.get(self, k)
+        return self.default if v is None else v
+
+
+class SetV(Value):
+    def __repr__(self):
+        return 'SetV'
 
 
 def broadcast(a, b):
@@ -97,7 +122,7 @@ class ShapeDomain(Domain):
         if isinstance(v, (Scalar, Const)):
             return ()
         if isinstance(v, NsV):
-            return ('K',)
+            return (v.dim,)
         return None
 
     def binop(self, op, a, b, node):
@@ -167,6 +192,17 @@ class ShapeDomain(Domain):
         return None
 
     def method(self, v, name, args, kwargs, node):
+        if isinstance(v, SetV) and name == 'add':
+            return Const(None)
+        if isinstance(v, Sh) and name in ('max', 'min', 'sum', 'mean'):
+            ax = kwargs.get('axis', args[0] if args else None)
+            if ax is None:
+                return Scalar()
+            if isinstance(ax, Const) and isinstance(ax.v, int) and -len(v.dims) <= ax.v < len(v.dims):
+                d = list(v.dims)
+                del d[ax.v]
+                return Sh(tuple(d))
+            return Unknown('reduction axis')
         if isinstance(v, Sh):
             if name in ('astype', 'copy', 'conj'):
                 return v
@@ -204,11 +240,37 @@ class ShapeDomain(Domain):
         last = dotted.rsplit('.', 1)[-1]
         a0 = args[0] if args else None
         if dotted in ('builtins.list', 'builtins.tuple') and isinstance(a0, NsV):
-            return NsV(False)
-        if dotted in ('numpy.asarray', 'numpy.array') and isinstance(a0, NsV):
-            return Sh(('K',))
-        if dotted == 'builtins.len' and isinstance(a0, (NsV,)):
+            return NsV(False, a0.dim)
+        if dotted in ('builtins.list', 'builtins.tuple') and isinstance(a0, Sh) and a0.dims:
+            return a0                       # a list of rows indexes like the array
+        if dotted == 'builtins.len' and isinstance(a0, PairsV):
             return Dim('K')
+        if dotted == 'builtins.set' and not args:
+            return SetV()
+        if dotted == 'builtins.dict' and isinstance(a0, DictV):
+            d = DictV()
+            d.entries = list(a0.entries)
+            return d
+        if dotted == 'builtins.zip' and any(isinstance(a, (PairsV, NsV)) for a in args):
+            return PairsV()
+        if dotted == 'builtins.range' and any(isinstance(a, Scalar) for a in args):
+            return NsV(False, 'R%d' % getattr(node, 'lineno', 0))
+        if dotted == 'builtins.abs' and isinstance(a0, Scalar):
+            return Scalar()
+        if dotted == 'collections.defaultdict' and args:
+            return DefDict(self.interp.call_value(a0, [], {}, node, None))
+        if dotted in ('numpy.asarray', 'numpy.array') and isinstance(a0, PairsV):
+            return Sh(('K', 2))
+        if last == 'arange' and any(isinstance(a, Scalar) for a in args):
+            return NsV(True, 'R%d' % getattr(node, 'lineno', 0))
+        if last == 'unique' and isinstance(a0, (NsV, Sh)):
+            return NsV(True, 'U')
+        if last in ('abs', 'absolute') and isinstance(a0, NsV):
+            return a0
+        if dotted in ('numpy.asarray', 'numpy.array') and isinstance(a0, NsV):
+            return Sh((a0.dim,))
+        if dotted == 'builtins.len' and isinstance(a0, (NsV,)):
+            return Dim(a0.dim)
         if dotted == 'builtins.len' and isinstance(a0, Sh) and a0.dims:
             return Dim(a0.dims[0])
         if last in ('empty', 'zeros', 'ones') and args:
@@ -245,6 +307,22 @@ class ShapeDomain(Domain):
     def subscript(self, v, idx, node):
         if isinstance(v, NsV):
             return Scalar()
+        if isinstance(v, PairsV):
+            return Tup([Scalar(), Scalar()])
+        if isinstance(v, Tup) and isinstance(idx, Scalar):
+            kinds = []
+            for it in v.items:
+                if it not in kinds:
+                    kinds.append(it)
+            if not kinds:
+                return Unknown('index into empty list')
+            if len(kinds) == 1:
+                return kinds[0]
+            return kinds[self.interp.choose(len(kinds), 'list element kind')]
+        if isinstance(v, Sh):
+            def fix(x):
+                return Const(None) if isinstance(x, ExtRef) and x.dotted.endswith('newaxis') else x
+            idx = Tup([fix(x) for x in idx.items]) if isinstance(idx, Tup) else fix(idx)
         if isinstance(v, Sh):
             items = idx.items if isinstance(idx, Tup) else [idx]
             dims = list(v.dims)
@@ -291,12 +369,16 @@ class ShapeDomain(Domain):
         return None
 
     def iterate(self, v, node):
+        if isinstance(v, Sh) and v.dims and isinstance(v.dims[0], int) and v.dims[0] <= 4:
+            return [Sh(v.dims[1:]) if len(v.dims) > 1 else Scalar() for _ in range(v.dims[0])]
         return None
 
     def comprehension(self, node, frame):
         if len(node.generators) == 1:
             src = self.interp.ev(node.generators[0].iter, frame)
             if isinstance(src, NsV):
+                return NsV(False, src.dim)
+            if isinstance(src, PairsV):
                 return NsV()
         return None
 
@@ -311,7 +393,9 @@ class ShapeDomain(Domain):
                     carried.add(n.id)
         before = {k: frame.env.get(k) for k in carried}
         if isinstance(node, ast.For):
-            self.interp.assign(node.target, Scalar(), frame, node)
+            for leaf in ast.walk(node.target):
+                if isinstance(leaf, ast.Name):
+                    frame.env[leaf.id] = Scalar()
         try:
             self.interp.exec_block(node.body, frame)
         except (_Break, _Continue):
